@@ -102,58 +102,75 @@ Proof.
   - f_equal. apply IH.
 Qed.
 
+Lemma cpre_pstream o p : cpre o p -> pstream o p /\ concat_w p = [].
+Proof.
+  intros [-> | ->]; (split; [|reflexivity]).
+  - left. exact Logic.I.
+  - right. exists []. split; [reflexivity|exact Logic.I].
+Qed.
+
 Lemma cm_image nv s h d cm :
   Inv nv s h d -> crash_image (cml s) cm ->
   exists c', committed s <= c' /\ c' <= d /\ 44 * c' <= len cm /\ len cm < 44 * c' + 44 /\
-             take (44 * c') cm = entries (firstn (N.to_nat c') h).
+             take (44 * c') cm = entries (firstn (N.to_nat c') h) /\
+             (c' = committed s \/ exists t, phase_ s = PC t).
 Proof.
   intros I Hci. destruct I as [_ _ Ichain Iplen Icd _ _ _ _ _ _ _ _ Icdur Icph _].
   destruct Icdur as (C1 & C2 & C3).
-  set (c := committed s) in *.
-  assert (Base: forall x, x = durable (cml s) ->
-            exists c', c <= c' /\ c' <= d /\ 44 * c' <= len x /\ len x < 44 * c' + 44 /\
-                       take (44 * c') x = entries (firstn (N.to_nat c') h)).
-  { intros x ->. exists c. repeat split; auto; lia. }
-  destruct (phase_ s) as [|i|t].
-  - destruct Icph as (P1 & _). apply Base. apply crash_image_nopending; auto.
-  - destruct Icph as (P1 & _). apply Base. apply crash_image_nopending; auto.
-  - destruct Icph as (P1 & P2 & P3 & P4 & P5 & P6). subst t.
-    set (p := precommitted s) in *.
-    unfold fstream in P4, P5. apply stream_app in P4 as [P4 _].
-    rewrite concat_w_app, concat_w_tail in P5.
-    destruct (crash_image_stream _ _ _ P4 C1 Hci) as (j & Hj & ->).
-    set (E := entries (skipn (N.to_nat c) h)) in *.
-    set (D := durable (cml s)) in *.
-    assert (LE: len E = 44 * (p - c)).
-    { unfold E. rewrite (entries_skipn_len H H_len _ _ _ _ _ Ichain) by lia. lia. }
-    assert (Tj: take j (concat_w (pending (cml s))) = take j E).
-    { rewrite <- P5. rewrite take_app_le by lia. reflexivity. }
-    assert (Lpe: len (concat_w (pending (cml s))) <= len E) by (rewrite <- P5, len_app; lia).
-    rewrite Tj.
-    assert (Lt: len (take j E) = j) by (rewrite len_take; lia).
-    destruct (N.le_gt_cases (44 * c + j) (len D)) as [Hsm|Hbig].
-    + exists c. split; [lia|]. split; [lia|]. rewrite len_wr by lia. rewrite Lt.
-      split; [lia|]. split; [lia|]. rewrite take_wr_below by lia. exact C3.
-    + set (m := j / 44).
-      exists (c + m). rewrite len_wr by lia. rewrite Lt.
-      assert (Hm: 44 * m <= j /\ j < 44 * m + 44) by (unfold m; lia).
-      split; [lia|]. split; [lia|]. split; [lia|]. split; [lia|].
-      (* content *)
-      assert (Hmn: (N.to_nat m <= length (skipn (N.to_nat c) h))%nat) by (rewrite skipn_length; lia).
-      assert (TE: take (44 * m) (take j E) = entries (firstn (N.to_nat m) (skipn (N.to_nat c) h))).
-      { rewrite take_take by lia. unfold E.
-        pose proof (chain_skipn H H_len 0 alh0 0 (N.to_nat c) h ltac:(lia) Ichain) as Hs.
-        rewrite <- (firstn_all (skipn (N.to_nat c) h)) at 1.
-        replace (44 * m) with (44 * N.of_nat (N.to_nat m)) by lia.
-        eapply entries_prefix; eauto. }
-      replace (N.to_nat (c + m)) with (N.to_nat c + N.to_nat m)%nat by lia.
-      rewrite firstn_add, entries_app, <- TE, <- C3.
-      unfold wr.
-      assert (L1: len (take (44 * c) D) = 44 * c) by (rewrite len_take; lia).
-      replace (44 * (c + m)) with (len (take (44 * c) D) + 44 * m) by lia.
-      rewrite take_app_ge by lia.
-      replace (len (take (44 * c) D) + 44 * m - len (take (44 * c) D)) with (44 * m) by lia.
-      f_equal. rewrite take_app_le by lia. reflexivity.
+  set (c := committed s) in *. set (p := precommitted s) in *.
+  set (E := entries (skipn (N.to_nat c) h)).
+  assert (LE: len E = 44 * (p - c)).
+  { unfold E. rewrite (entries_skipn_len H H_len _ _ _ _ _ Ichain) by lia. lia. }
+  assert (Himg: exists m j, 44 * c <= m /\ j <= len E /\ (0 < j -> d = p /\ exists t, phase_ s = PC t) /\
+                            cm = wr (take m (durable (cml s))) (44 * c) (take j E)).
+  { assert (Quiet: cpre (44 * c) (pending (cml s)) ->
+              exists m j, 44 * c <= m /\ j <= len E /\ (0 < j -> d = p /\ exists t, phase_ s = PC t) /\
+                          cm = wr (take m (durable (cml s))) (44 * c) (take j E)).
+    { intros P1. destruct (cpre_pstream _ _ P1) as (Hps & Hnil).
+      destruct (crash_image_pstream _ _ _ Hps C1 Hci) as (m & j & Hm & Hj & ->).
+      rewrite Hnil in *. rewrite len_nil in Hj. assert (j = 0) by lia. subst j.
+      exists m, 0. split; [exact Hm|]. split; [lia|]. split; [lia|]. rewrite !take_0. reflexivity. }
+    destruct (phase_ s) as [|i|t] eqn:Ep.
+    - destruct Icph as (P1 & _). auto.
+    - destruct Icph as (P1 & _). auto.
+    - destruct Icph as (P1 & P2 & P3 & P4 & P5 & P6). subst t.
+      unfold fstream in P4, P5. apply pstream_app_l in P4.
+      rewrite concat_w_app, concat_w_tail in P5.
+      destruct (crash_image_pstream _ _ _ P4 C1 Hci) as (m & j & Hm & Hj & ->).
+      assert (Lpe: len (concat_w (pending (cml s))) <= len E) by (unfold E; rewrite <- P5, len_app; lia).
+      exists m, j. split; [exact Hm|]. split; [lia|]. split; [intros _; split; [exact P2|eauto]|].
+      f_equal. unfold E. rewrite <- P5. rewrite take_app_le by lia. reflexivity. }
+  destruct Himg as (m0 & j & Hm0 & Hj & Hjd & ->).
+  set (D := take m0 (durable (cml s))).
+  assert (D1: 44 * c <= len D) by (unfold D; rewrite len_take; lia).
+  assert (D2: len D < 44 * c + 44) by (unfold D; rewrite len_take; lia).
+  assert (D3: take (44 * c) D = entries (firstn (N.to_nat c) h)).
+  { unfold D. rewrite take_take by lia. exact C3. }
+  assert (Lt: len (take j E) = j) by (rewrite len_take; lia).
+  destruct (N.le_gt_cases (44 * c + j) (len D)) as [Hsm|Hbig].
+  + exists c. split; [lia|]. split; [lia|]. rewrite len_wr by lia. rewrite Lt.
+    split; [lia|]. split; [lia|]. split; [|left; reflexivity]. rewrite take_wr_below by lia. exact D3.
+  + assert (Hjp: 0 < j) by lia. destruct (Hjd Hjp) as (Hd & t & Ept).
+    set (m := j / 44).
+    exists (c + m). rewrite len_wr by lia. rewrite Lt.
+    assert (Hm: 44 * m <= j /\ j < 44 * m + 44) by (unfold m; lia).
+    split; [lia|]. split; [lia|]. split; [lia|]. split; [lia|]. split; [|right; eauto].
+    (* content *)
+    assert (Hmn: (N.to_nat m <= length (skipn (N.to_nat c) h))%nat) by (rewrite skipn_length; lia).
+    assert (TE: take (44 * m) (take j E) = entries (firstn (N.to_nat m) (skipn (N.to_nat c) h))).
+    { rewrite take_take by lia. unfold E.
+      pose proof (chain_skipn H H_len 0 alh0 0 (N.to_nat c) h ltac:(lia) Ichain) as Hs.
+      rewrite <- (firstn_all (skipn (N.to_nat c) h)) at 1.
+      replace (44 * m) with (44 * N.of_nat (N.to_nat m)) by lia.
+      eapply entries_prefix; eauto. }
+    replace (N.to_nat (c + m)) with (N.to_nat c + N.to_nat m)%nat by lia.
+    rewrite firstn_add, entries_app, <- TE, <- D3.
+    unfold wr.
+    assert (L1: len (take (44 * c) D) = 44 * c) by (rewrite len_take; lia).
+    replace (44 * (c + m)) with (len (take (44 * c) D) + 44 * m) by lia.
+    rewrite take_app_ge by lia.
+    replace (len (take (44 * c) D) + 44 * m - len (take (44 * c) D)) with (44 * m) by lia.
+    f_equal. rewrite take_app_le by lia. reflexivity.
 Qed.
 
 (* ---- reloading precommitted transactions ---- *)
@@ -213,18 +230,17 @@ Lemma relink_ok n thld tx cm c pb a :
   AInv thld a ->
   (forall k, a_size a < k <= a_size a + N.of_nat n ->
              exists leaf, read_alh H tx cm c pb k = Ok leaf /\ len leaf = 32) ->
-  exists a', relink H n thld tx cm c pb a = Ok a' /\ AInv thld a' /\ a_size a' = a_size a + N.of_nat n /\
-             len (durable (a_d a)) <= len (durable (a_d a')).
+  exists a', relink H n thld tx cm c pb a = Ok a' /\ AInv thld a' /\ a_size a' = a_size a + N.of_nat n.
 Proof.
   revert a; induction n as [|n IH]; intros a IA Hr.
-  - exists a. cbn [relink]. split; [reflexivity|]. split; [exact IA|]. split; lia.
+  - exists a. cbn [relink]. split; [reflexivity|]. split; [exact IA|]. lia.
   - cbn [relink]. destruct (Hr (a_size a + 1)) as (leaf & El & Ll); [lia|].
     rewrite El. cbn [bind].
-    destruct (aht_append_ok thld a leaf IA Ll) as (a1 & Ea & IA1 & Sz & Ld).
+    destruct (aht_append_ok thld a leaf IA Ll) as (a1 & Ea & IA1 & Sz).
     rewrite Ea. cbn [bind].
-    destruct (IH a1 IA1) as (a' & Er & IA' & Sz' & Ld').
+    destruct (IH a1 IA1) as (a' & Er & IA' & Sz').
     + intros k Hk. apply Hr. lia.
-    + exists a'. split; [exact Er|]. split; [exact IA'|]. split; lia.
+    + exists a'. split; [exact Er|]. split; [exact IA'|]. lia.
 Qed.
 
 Lemma raws_len_ge pid pa off h : chain pid pa off h -> N.of_nat (length h) <= len (raws h).
@@ -241,12 +257,18 @@ Proof.
 Qed.
 
 Lemma open_trim_spec img u : 0 < u ->
-  durable (open_trim img u) = img /\ pending (open_trim img u) = [] /\ buf (open_trim img u) = [] /\
-  bufoff (open_trim img u) = len img - len img mod u /\ wf (open_trim img u).
+  durable (open_trim img u) = img /\ cpre (len img - len img mod u) (pending (open_trim img u)) /\
+  buf (open_trim img u) = [] /\
+  bufoff (open_trim img u) = len img - len img mod u /\ wf (open_trim img u) /\
+  (len img mod u = 0 -> open_trim img u = f_open img).
 Proof.
   intros Hu. unfold open_trim. destruct (N.ltb_spec 0 (len img mod u)) as [Hr|Hr].
-  - cbn. repeat split; auto. unfold wf, os_view. cbn. lia.
-  - cbn. repeat split; auto. + lia. + apply wf_open.
+  - cbn [durable pending buf bufoff]. split; [reflexivity|]. split; [right; reflexivity|].
+    split; [reflexivity|]. split; [reflexivity|]. split; [|lia].
+    unfold wf, os_view. cbn [durable pending bufoff apply_writes fold_left apply1]. rewrite len_take.
+    pose proof (N.mod_le (len img) u). lia.
+  - cbn [f_open durable pending buf bufoff]. split; [reflexivity|]. split; [left; reflexivity|].
+    split; [reflexivity|]. split; [lia|]. split; [apply wf_open|reflexivity].
 Qed.
 
 Lemma Forall2_length' {A B} (R : A -> B -> Prop) l1 l2 : Forall2 R l1 l2 -> length l1 = length l2.
@@ -322,28 +344,34 @@ Proof.
 Qed.
 
 (* ---- recovery on a crash image of a state satisfying the invariant ---- *)
+(* The logs always recover; ahtree.OpenWith's size check is the only thing that can fail (it does for
+   the code as it is, Crash/Refuted.v; it cannot with the proposed repair, Crash/TreeProofs.v). *)
 Lemma recover_ok nv s h d im upto :
   Inv nv s h d -> VInv H s h d -> crash s im ->
+  (len (i_ahd im) < 32 * (len (i_ahc im) / 12) /\ recover_upto H upto (s_cfg s) im = Err ECorruptedData) \/
+  (32 * (len (i_ahc im) / 12) <= len (i_ahd im) /\
   exists s' c' rs,
     recover_upto H upto (s_cfg s) im = Ok s' /\
     committed s <= c' /\ c' <= d /\ committed s' = c' /\ acked s' = c' /\
     Inv nv s' (firstn (N.to_nat c') h ++ rs) (c' + N.of_nat (length rs)) /\
     phase_ s' = PIdle /\ s_cfg s' = s_cfg s /\
     txl s' = f_open (i_txl im) /\ vls s' = map f_open (i_vls im) /\
-    durable (cml s') = i_cml im /\ pending (cml s') = [] /\ buf (cml s') = [] /\
+    durable (cml s') = i_cml im /\ cml s' = open_trim (i_cml im) 44 /\ (c' = committed s \/ exists t, phase_ s = PC t) /\
     take (44 * c') (i_cml im) = entries (firstn (N.to_nat c') h) /\
     take (dts h d) (i_txl im) = raws (firstn (N.to_nat d) h) /\ dts h d <= len (i_txl im) /\
     ((N.to_nat (precommitted s') <= upto)%nat -> asize s' = precommitted s') /\
     VInv H s' (firstn (N.to_nat c') h ++ rs) (c' + N.of_nat (length rs)) /\
     (* how the hash tree of s' was obtained *)
     (let asz := len (i_ahc im) / 12 in
-     let a0 := mkAht (f_open (i_ahd im)) (open_trim (i_ahc im) 12) asz asz 0 in
-     exists a1, (if c' <? asz then aht_reset a0 c' else Ok a0) = Ok a1 /\
+     let a0 := mkAht (f_open (i_ahd im)) (f_open (i_ahc im)) asz asz 0 in
+     i_ahc im = durable (ahc s) /\
+     exists a1, (if c' <? asz then aht_reset (c_ahtreset (s_cfg s)) a0 c' else Ok a0) = Ok a1 /\
+       AInv (c_thld (s_cfg s)) a0 /\
        relink H (Nat.min upto (N.to_nat (c' + N.of_nat (length rs) - a_size a1))) (c_thld (s_cfg s))
-              (i_txl im) (i_cml im) c' (map pb_of rs) a1 = Ok (aht_of s')).
+              (i_txl im) (i_cml im) c' (map pb_of rs) a1 = Ok (aht_of s'))).
 Proof.
   intros I VI (Ctx & Ccm & Cvl & Cad & Cac).
-  destruct (cm_image _ _ _ _ _ I Ccm) as (c' & Hc1 & Hc2 & Hc3 & Hc4 & Hc5).
+  destruct (cm_image _ _ _ _ _ I Ccm) as (c' & Hc1 & Hc2 & Hc3 & Hc4 & Hc5 & Hc6).
   pose proof I as I0.
   destruct I as [Icfg Inv_nv Ichain Iplen Icd Iack Ipbuf Ipalh Ipts Itwf Itdur Itview Icwf Icdur Icph Iaht].
   destruct Icfg as (Hpre & Hthld).
@@ -392,6 +420,8 @@ Proof.
   (* reload *)
   destruct (reload H (S (length tx)) tx (i_vls im) ctls c' ca) as [[pb ptls] pa] eqn:Rl.
   destruct (reload_sound _ _ _ _ _ _ _ _ _ Rl) as (rs & Rc & Rpb & Rpos & Rle & Rsl & Rpa & Rva); [lia|].
+  assert (Elogs: recover_logs H (s_cfg s) tx cm (i_vls im) = Ok (c', ca, pb, pa, ptls)).
+  { unfold recover_logs. rewrite Hpre. unfold recover_logs_at. rewrite Hcsz, Cst. cbn [bind]. rewrite Rl. reflexivity. }
   set (h' := firstn cn h ++ rs).
   set (p' := c' + N.of_nat (length rs)).
   assert (Lfn: length (firstn cn h) = cn) by (apply firstn_length_le; auto).
@@ -404,33 +434,36 @@ Proof.
   assert (Tp': take ptls tx = raws h').
   { rewrite Rpos, take_add, Tc, Rh'. f_equal. exact Rsl. }
   (* the hash tree *)
-  destruct Iaht as ((A1 & A2 & A3 & A4 & A5 & A6 & A7 & A8 & A9) & A10).
+  destruct Iaht as ((A1 & A2 & A3 & A4 & A5 & A6 & A7 & A8 & A9 & A10) & A11).
   unfold aht_of in *. cbn [a_d a_c a_size a_latest a_cnt] in *.
   assert (Eac: i_ahc im = durable (ahc s)) by (apply crash_image_nopending; auto).
-  assert (Lad: len (durable (ahd s)) <= len (i_ahd im)).
-  { destruct Cad as (k & t & ->). apply apply_writes_len. }
   set (ac := i_ahc im) in *. set (asz := len ac / 12).
+  assert (Hmod: len ac mod 12 = 0) by (rewrite Eac; exact A10).
+  destruct (open_trim_spec ac 12 ltac:(lia)) as (_ & _ & _ & _ & _ & O6). specialize (O6 Hmod).
+  destruct (N.lt_ge_cases (len (i_ahd im)) (32 * asz)) as [Hbad|Hgood].
+  { (* ahtree.OpenWith: ErrorCorruptedDigests *)
+    left. split; [exact Hbad|].
+    unfold recover_upto. fold tx cm. rewrite Elogs. cbn [bind]. fold ac asz.
+    destruct (N.ltb_spec 0 asz); [|lia].
+    destruct (N.ltb_spec (len (i_ahd im)) (32 * asz)); [|lia]. reflexivity. }
+  right. split; [exact Hgood|].
   assert (Hchk: ((0 <? asz) && (len (i_ahd im) <? 32 * asz)) = false).
-  { destruct (N.ltb_spec (len (i_ahd im)) (32 * asz)); [|apply andb_false_r].
-    unfold asz in *. rewrite Eac in *. lia. }
-  destruct (open_trim_spec ac 12 ltac:(lia)) as (O1 & O2 & O3 & O4 & O5).
-  set (a0 := mkAht (f_open (i_ahd im)) (open_trim ac 12) asz asz 0).
+  { destruct (N.ltb_spec (len (i_ahd im)) (32 * asz)); [lia|apply andb_false_r]. }
+  set (a0 := mkAht (f_open (i_ahd im)) (f_open ac) asz asz 0).
   assert (IA0: AInv (c_thld (s_cfg s)) a0).
-  { unfold AInv, a0. cbn [a_d a_c a_size a_latest a_cnt]. rewrite O1, O2, O3, O4.
-    unfold f_offset. cbn [f_open bufoff buf durable]. rewrite len_nil.
-    destruct (N.ltb_spec (len (i_ahd im)) (32 * asz)).
-    - unfold asz in *. rewrite Eac in *. lia.
-    - repeat split; auto; try lia; try apply wf_open; try (unfold asz; lia). }
-  assert (Ha1: exists a1, (if c' <? asz then aht_reset a0 c' else Ok a0) = Ok a1 /\
+  { unfold AInv, a0. cbn [a_d a_c a_size a_latest a_cnt].
+    unfold f_offset. cbn [f_open bufoff buf durable pending]. rewrite len_nil.
+    repeat split; auto; try lia; try apply wf_open; try (unfold asz; lia). }
+  assert (Ha1: exists a1, (if c' <? asz then aht_reset (c_ahtreset (s_cfg s)) a0 c' else Ok a0) = Ok a1 /\
                           AInv (c_thld (s_cfg s)) a1 /\ a_size a1 <= p').
   { destruct (N.ltb_spec c' asz).
     - assert (Q: c' <= a_size a0) by (unfold a0; cbn [a_size]; lia).
-      destruct (aht_reset_ok _ a0 c' IA0 Q Hthld) as (a1 & E1 & I1 & S1 & _).
+      destruct (aht_reset_ok_le (c_ahtreset (s_cfg s)) _ a0 c' IA0 Q Hthld) as (a1 & E1 & I1 & S1).
       exists a1. split; [exact E1|]. split; [exact I1|unfold p'; lia].
     - exists a0. split; [reflexivity|]. split; [exact IA0|]. unfold a0, p'; cbn [a_size]. lia. }
   destruct Ha1 as (a1 & Ea1 & IA1 & Sa1).
   set (n := Nat.min upto (N.to_nat (p' - a_size a1))).
-  destruct (relink_ok n (c_thld (s_cfg s)) tx cm c' pb a1 IA1) as (a2 & Ea2 & IA2 & Sa2 & _).
+  destruct (relink_ok n (c_thld (s_cfg s)) tx cm c' pb a1 IA1) as (a2 & Ea2 & IA2 & Sa2).
   { intros k Hk. unfold read_alh.
     destruct (N.leb_spec k c') as [Hkc|Hkc].
     - assert (Q1: take (44 * N.of_nat cn) cm = entries (firstn cn h)) by (unfold cn; rewrite Nnat.N2Nat.id; exact Hc5).
@@ -462,19 +495,20 @@ Proof.
         destruct (val_of_reload s' im (t_body r) Ev Rr) as (x & B & Vx & Dx).
         exists x. split; [exact B|]. split; [exact Vx|intros _; exact Dx]. }
   (* assemble *)
-  unfold recover_upto, recover_logs. rewrite Hpre. fold tx cm. rewrite Hcsz, Cst. cbn [bind]. rewrite Rl. cbn [bind].
-  fold ac asz. rewrite Hchk. fold a0.
+  unfold recover_upto. rewrite Hpre. fold tx cm. rewrite Elogs. cbn [bind].
+  fold ac asz. rewrite Hchk. rewrite O6. fold a0.
   assert (Epb: c' + N.of_nat (length pb) = p') by (unfold p'; rewrite Rpb, map_length; reflexivity).
   rewrite Ea1. cbn [bind]. rewrite Epb. fold n. rewrite Ea2. cbn [bind].
-  destruct (open_trim_spec cm 44 ltac:(lia)) as (Q1 & Q2 & Q3 & Q4 & Q5).
+  destruct (open_trim_spec cm 44 ltac:(lia)) as (Q1 & Q2 & Q3 & Q4 & Q5 & _).
   eexists. exists c', rs. split; [reflexivity|].
   cbn [committed acked phase_ s_cfg txl vls cml asize].
   split; [exact Hc1|]. split; [exact Hc2|]. split; [reflexivity|]. split; [reflexivity|].
   split.
   2:{ split; [reflexivity|]. split; [reflexivity|]. split; [reflexivity|]. split; [reflexivity|].
-      split; [exact Q1|]. split; [exact Q2|]. split; [exact Q3|]. split; [exact Hc5|].
+      split; [exact Q1|]. split; [reflexivity|]. split; [exact Hc6|]. split; [exact Hc5|].
       split; [exact Tp|]. split; [lia|]. split.
-      2:{ split; [apply VIgoal; reflexivity|]. cbv zeta. fold ac asz a0. exists a1. split; [exact Ea1|].
+      2:{ split; [apply VIgoal; reflexivity|]. cbv zeta. fold ac asz a0. split; [exact Eac|]. exists a1. split; [exact Ea1|].
+          split; [exact IA0|].
           fold tx cm p'. fold n. rewrite <- Rpb. rewrite Ea2. unfold aht_of. cbn [ahd ahc asize alatest acnt].
           destruct a2; reflexivity. }
       intros Hup. unfold precommitted. cbn [committed pbuf asize]. rewrite Rpb, map_length. fold p'.
@@ -503,7 +537,7 @@ Proof.
   - exact Q5.
   - rewrite Q1. unfold h'. rewrite firstn_app_le by lia. rewrite firstn_firstn_le by lia.
     repeat split; auto.
-  - rewrite Q2, Q3, Q4. repeat split; auto.
+  - rewrite Q3, Q4. rewrite Hcsz in Q2. repeat split; auto.
   - split; [destruct a2; exact IA2|]. rewrite Rpb, map_length. fold p'. rewrite Sa2. unfold n. lia.
 Qed.
 
